@@ -7,7 +7,7 @@ import Pog.Model.Registry
 
   Python (generator)                                        model
   --------------------------------------------------------  ---------------------------------------
-  loader/operations/parser.py:93-105 (path-level + op-level) `irParams`
+  loader/operations/parser.py:93-114 (path-level + op-level) `irParams`
   helpers/url_utils.extract_url_variables, the `re.sub` of
     url_args_generator._build_url_with_path_vars             `parsePath`, `pathVars`
   processors/parameter_processor.process_parameters          `orderedParams` (`declaredInfos`, `bodyInfo`,
@@ -118,9 +118,12 @@ structure Op where
   responses : List Resp
   deriving DecidableEq, Repr
 
-/-- loader/operations/parser.py:93-105: path-level parameters first, then the operation's own; an
-    operation-level parameter does NOT replace a path-level one of the same name and location. -/
-def irParams (pathLevel opLevel : List GParam) : List GParam := pathLevel ++ opLevel
+/-- loader/operations/parser.py:93-114 (F4 repaired): the path-level parameters that no operation-level parameter
+    overrides (same name and location), then the operation's own; both in document order.
+    (`GLoc.other` stands for ONE location string outside the four: two `other` parameters of an operation are taken
+    to carry the same string - the correspondence generates `formData` only.) -/
+def irParams (pathLevel opLevel : List GParam) : List GParam :=
+  pathLevel.filter (fun bp => !opLevel.any (fun p => bp.name == p.name && bp.loc == p.loc)) ++ opLevel
 
 /-! ## the path template -/
 
